@@ -1,4 +1,4 @@
-import Netpoll.Poll.OpCache
+import Netpoll.Poll.OpCacheInv
 /-
 C10 – connections are isolated from each other across slot and descriptor reuse.
 Theorems over `Netpoll.Poll.OpCache` (one slot, any number of successive owners, any interleaving of
@@ -6,45 +6,6 @@ the poller's batch processing with alloc / register / close / stale calls), for 
 -/
 namespace Netpoll.Props.C10
 open Netpoll.Poll.OpCache
-
-/-- the invariant: a fetched event always belongs to the callbacks installed (or to nobody), the slot is
-never on the free chain while a batch may still dispatch through it, and nothing bad has happened. -/
-def Good (s : S) : Prop :=
-  s.bad = false ∧
-  s.staleHolds = false ∧
-  (∀ g, s.pending = some g → s.inBatch = true ∧ (s.cbGen = some g ∨ s.cbGen = none) ∧ g = s.gen) ∧
-  (s.pending ≠ none → s.loc ≠ .first) ∧
-  (s.pollerHolds = true → s.inBatch = true ∧ s.st = 2 ∧ s.loc = .owned ∧ s.pending = none) ∧
-  (s.loc = .first → s.st = 0 ∧ s.cbGen = none ∧ s.registered = false ∧ s.pc = .gone ∧ s.pollerHolds = false) ∧
-  (s.loc = .freelist → s.st = 0 ∧ s.cbGen = none ∧ s.registered = false ∧ s.pc = .gone ∧ s.pollerHolds = false) ∧
-  (s.loc = .owned → (s.cbGen = some s.gen ∨ (s.cbGen = none ∧ (s.pc = .resetDone ∨ s.pc = .gone))) ∧ s.pc ≠ .gone) ∧
-  (s.registered = true → s.loc = .owned ∧ s.pc = .live) ∧
-  (s.st = 2 → s.pollerHolds = true) ∧
-  (s.pc = .allocated → s.st = 0) ∧ (s.pc = .live → s.st ≥ 1) ∧ (s.pc = .detached → s.st ≥ 1) ∧
-  (s.pc = .unusedDone → s.st = 0) ∧ (s.pc = .resetDone → s.st = 0 ∧ s.cbGen = none) ∧
-  (s.st ≥ 1 → s.loc = .owned ∧ s.cbGen = some s.gen) ∧ s.st ≤ 2 ∧
-  (s.loc = .owned → s.fdOpen = true)
-
-theorem good_init : Good init := by
-  simp [Good, init]
-
-/-- one step preserves the invariant, provided stale Release calls carry the IsActive guard. -/
-theorem good_step (s s' : S) (a : Act) (h : Good s) (hg : guardedAct a = true) (hs : step s a = some s') : Good s' := by
-  obtain ⟨loc, st, gen, pc, cbGen, registered, inBatch, pending, pollerHolds, staleHolds, bad, fdOpen⟩ := s
-  cases a <;> simp only [step, guardedAct] at hs hg <;> (repeat' split at hs) <;> (try cases hs) <;>
-    (try (simp only [Good] at *; grind))
-
-theorem good_run (acts : List Act) (s0 s : S) (h0 : Good s0) (hall : acts.all guardedAct = true)
-    (hrun : run s0 acts = some s) : Good s := by
-  induction acts generalizing s0 with
-  | nil => simp [run] at hrun; subst hrun; exact h0
-  | cons a rest ih =>
-    simp only [run] at hrun
-    simp only [List.all_cons, Bool.and_eq_true] at hall
-    split at hrun
-    · simp at hrun
-    · rename_i s1 h1
-      exact ih s1 (good_step s0 s1 a h0 hall.1 h1) hall.2 hrun
 
 /-- **C10_no_cross_dispatch / C10_single_owner.** For every sequence of actions (any number of owners,
 any placement of close / reopen between the fetch and the dispatch of a batch, any stale Release calls
